@@ -306,6 +306,12 @@ fn long_strings(d: &FmtDesc, ec: u8) -> Vec<Vec<u8>> {
             (vkit::float::F32, 0x3f800001),
             (vkit::float::F32, 0x3dcccccd),
             (vkit::float::F32, 0x4b800000),
+            // below 1 with leading fraction zeros (0.001, 0.00001 and their odd neighbours)
+            (vkit::float::F64, 0x3f50624dd2f1a9fc),
+            (vkit::float::F64, 0x3f50624dd2f1a9fd),
+            (vkit::float::F64, 0x3ee4f8b588e368f1),
+            (vkit::float::F32, 0x3a83126f),
+            (vkit::float::F32, 0x3a831270),
         ];
         for (fm, bits) in mids {
             if let Some((ds, q)) = gen::midpoint_expansion(fm, bits, 10) {
@@ -340,6 +346,10 @@ fn long_strings(d: &FmtDesc, ec: u8) -> Vec<Vec<u8>> {
                         s.extend_from_slice(&ds);
                     }
                     v.push(s.clone());
+                    // just above the halfway point
+                    let mut up = s.clone();
+                    up.push(b'1');
+                    v.push(up);
                     s.push(b'0');
                     v.push(s.clone());
                     s.extend_from_slice(b"00");
